@@ -260,6 +260,16 @@ def policy_class(stag, etag):
 
 def build_policy(p):
     cls = policy_class(p.get('stag', '<'), p.get('etag', '>'))
+    if cls is Policy and p['effect'] in ('allow', 'deny') and (len(p['subjects']) + 2 * len(p['resources']) + len(repr(p['uid']))) % 4 == 0:
+        # the convenience classes PolicyAllow / PolicyDeny fix the effect themselves (a quarter of the plain policies)
+        from vakt.policy import PolicyAllow, PolicyDeny
+        return (PolicyAllow if p['effect'] == 'allow' else PolicyDeny)(
+            p['uid'],
+            subjects=[build_elem(e) for e in p['subjects']],
+            resources=[build_elem(e) for e in p['resources']],
+            actions=[build_elem(e) for e in p['actions']],
+            context={k: build_attrval(a) for k, a in p['context']},
+            description=p.get('desc'))
     return cls(p['uid'],
                subjects=[build_elem(e) for e in p['subjects']],
                effect=p['effect'],
